@@ -1,6 +1,6 @@
 (* driver commands of property C02 (open-file I/O):
      fileio     - per step: result of the IMPLEMENTATION model (World.wstep through FileKf.impl_call) for MemFS and
-                  OrefaFS, result of the SPECIFICATION (FileSpec.spec_step), and what every name and descriptor shows
+                  OrefaFS, result of the SPECIFICATION (FileSpec.fspec_step), and what every name and descriptor shows
      fileio-kf  - per step: the classification FileKf.kf02 / kfdir of the step (evaluated on the specification state)
    case line:   file | op | op ...          or   dir <name,name,...> | op | op ...
    output line: one field group per step, " | " separated (see show_step) *)
@@ -55,8 +55,7 @@ let show_finding (k : finding) : string = match k with
   | KfOpenModeFromOptions -> "KfOpenModeFromOptions" | KfAppendOpenOffset -> "KfAppendOpenOffset"
   | KfZeroLenRead -> "KfZeroLenRead" | KfZeroLenReadAt -> "KfZeroLenReadAt" | KfZeroLenWrite -> "KfZeroLenWrite"
   | KfZeroLenWriteAt -> "KfZeroLenWriteAt" | KfWriteAtAppend -> "KfWriteAtAppend" | KfClosedPriority -> "KfClosedPriority"
-  | KfUnlinkDropsData -> "KfUnlinkDropsData" | KfRenameHardLinkAlias -> "KfRenameHardLinkAlias"
-  | KfPathTruncatePriority -> "KfPathTruncatePriority"
+  | KfUnlinkDropsData -> "KfUnlinkDropsData"
 let show_dfinding (k : dfinding) : string = match k with
   | KfDirRestart -> "KfDirRestart" | KfDirAllAfterPartial -> "KfDirAllAfterPartial" | KfDirMixedCursors -> "KfDirMixedCursors"
   | KfDirSeek -> "KfDirSeek" | KfDirZeroLenRead -> "KfDirZeroLenRead"
@@ -73,11 +72,11 @@ let info_size = function S_Info i -> int_of_z i.si_size | _ -> 0
 
 let spec_view (st : fstate) : string =
   let nfds = List.length st.st_fds in
-  let size_of k = info_size (snd (spec_step st (Fstat (nat_of_int k)))) in
-  String.concat "," (List.map (fun o -> show_sres (snd (spec_step st o))) (view_ops nfds size_of))
+  let size_of k = info_size (snd (fspec_step st (Fstat (nat_of_int k)))) in
+  String.concat "," (List.map (fun o -> show_sres (snd (fspec_step st o))) (view_ops nfds size_of))
 
 let impl_step (w : world) (o : fop) : world * sres =
-  let (w', r) = wstep w (impl_call o) in (w', proj_res r)
+  let (w', r) = wstep w (impl_call o) in (w', fproj_res r)
 
 let impl_view (w : world) : string =
   let nfds = List.length w.w_handles in
@@ -85,9 +84,11 @@ let impl_view (w : world) : string =
   String.concat "," (List.map (fun o -> show_sres (snd (impl_step w o))) (view_ops nfds size_of))
 
 let orefa_istep (w : world) (o : fop) : world * sres =
-  let (w', r) = orefa_step w o in (w', proj_res r)
+  let (w', r) = orefa_step w o in (w', fproj_res r)
 
 let show_ofinding = function OKf k -> show_finding k | OKfRenameKeepsLinkCount -> "OKfRenameKeepsLinkCount"
+  | OKfRenameHardLinkAlias -> "OKfRenameHardLinkAlias"
+  | OKfPathTruncatePriority -> "OKfPathTruncatePriority"
 
 let umask = 18
 
@@ -102,11 +103,11 @@ let run_file (ops : string list) (kfmode : bool) : string =
       let km = match kf02 !st o with None -> "-" | Some k -> show_finding k in
       let ko = match kf02_orefa !st o with None -> "-" | Some k -> show_ofinding k in
       outs := (km ^ "," ^ ko) :: !outs;
-      st := fst (spec_step !st o)
+      st := fst (fspec_step !st o)
     end else begin
       let (wm', rm) = impl_step !wm o in
       let (wo', ro) = orefa_istep !wo o in
-      let (st', rs) = spec_step !st o in
+      let (st', rs) = fspec_step !st o in
       wm := wm'; wo := wo'; st := st';
       outs := (Printf.sprintf "m:%s o:%s s:%s vm:%s vo:%s vs:%s" (show_sres rm) (show_sres ro)
                  (show_sres rs) (impl_view wm') (impl_view wo') (spec_view st')) :: !outs
@@ -166,7 +167,7 @@ let run_dir (names : str list) (ops : string list) (kfmode : bool) : string =
         acc_s := Array.append !acc_s [| Stdlib.ref [] |];
         if kfmode then emit "-,-"
         else begin
-          let s = show_sres (proj_res r) in
+          let s = show_sres (fproj_res r) in
           emit (Printf.sprintf "m:%s o:%s s:H:%d cm:%s co:%s" s s (Array.length !specs - 1) s s)
         end
     | DOp (h, o) ->
@@ -184,9 +185,9 @@ let run_dir (names : str list) (ops : string list) (kfmode : bool) : string =
             (match o with DRewind -> !acc_i.(h) := []; !acc_s.(h) := [] | _ -> ());
             let (exact, cn) = match r with
               | RInfos (l, e) -> let ns = List.map (fun i -> i.fi_name) l in
-                  (show_exact ns (Option.map proj_err e), canon !acc_i.(h) nreq ns (Option.map proj_err e))
-              | RNames (l, e) -> (show_exact l (Option.map proj_err e), canon !acc_i.(h) nreq l (Option.map proj_err e))
-              | _ -> let s = show_sres (proj_res r) in (s, s) in
+                  (show_exact ns (Option.map fproj_err e), canon !acc_i.(h) nreq ns (Option.map fproj_err e))
+              | RNames (l, e) -> (show_exact l (Option.map fproj_err e), canon !acc_i.(h) nreq l (Option.map fproj_err e))
+              | _ -> let s = show_sres (fproj_res r) in (s, s) in
             let sp = match rs with
               | D_Batch (l, e) -> canon !acc_s.(h) nreq l e
               | D_Data (n, e) -> Printf.sprintf "B:%d:s:%s" (int_of_z n) (show_oserr e)
